@@ -5,14 +5,14 @@ import vlib
 META = dict(
     level="proof",
     technique="Coq proofs over state-machine models of the PDF page writer (full) and the PostScript writer (colour cache) with format "
-              "interpreters; tie on the REAL output: random drawing programs recorded on a Canvas, rendered by the PDF (uncompressed) and "
-              "PS back-ends, tokenised and (K1) compared with the model writers' token streams, (K2) interpreted by exec_pdf/exec_ps and "
+              "interpreters; tie on the REAL output: random drawing programs recorded on a Canvas, rendered by the PDF (uncompressed), "
+              "PS and SVG back-ends, tokenised and (K1) compared with the model writers' token streams, (K2) interpreted by exec_pdf/exec_ps and "
               "compared with the paint operations of the recorded layers incl. reference stroke outlines (vm_compute)",
     level_text="Theorems (Coq, closed): for every sequence of styled draws the PDF writer's output, interpreted from the PDF initial graphics "
                "state, yields exactly the requested paint operations in order (cache transparency + paint order) — refuted for the writer at "
                "the pinned commit (stale alpha, S*), full after the fixes; PS colour cache transparent after the fix (refuted before); "
                "similarities scale all distances by k, the SVG flip is an isometry, fallback condition, unit conversions.",
-    level_note="Partial: SVG back-end is not tied (no SVG tokeniser yet: only the shared fallback-dash fix touches it); gradients, patterns, images, "
+    level_note="Partial: the SVG back-end has no writer model (it keeps no state): its <path> elements are interpreted (exec_svg, SVG 1.1 defaults) and judged against the layers, property flags only; gradients, patterns, images, "
                "text and opacity groups are not interpreted; PS caches other than the colour are tied by the differential run only; paths "
                "with M/L/C/Z only (arcs and quadratics go through the library's own conversions). PostScript has no alpha (documented) and "
                "the PS back-end writes millimetres as PostScript units (known finding).",
@@ -36,7 +36,7 @@ def run(ctx):
     if pr["broken"] or not pr["ok"]:
         ctx.violation(dict(kind="proof-obligation-broken", theorem_or_file=pr["broken"], bad_axioms=pr["bad_axioms"], log=pr["log"][-2000:]),
                       "proof obligation no longer checks: %s" % (pr["broken"] or pr["bad_axioms"]), found_input=False)
-    nprog = ctx.n(200, 15000)
+    nprog = ctx.n(140, 15000)
     args = ["-seed", str(ctx.seed), "-n", str(nprog)]
     if ctx.replay:
         rp = json.load(open(ctx.replay))
@@ -56,6 +56,8 @@ def run(ctx):
         ndraws += nd
         nfallback += nf
         with_gs += 1 if (c["fam"] == "pdf" and info & 1) else 0
+        if c["fam"] == "svg" and "reference outline holds arcs" in str(c["desc"].get("harness_error") or ""):
+            continue   # the outline oracle is not available for this program (counted in flag_counts as harness error)
         distinct.add((c["fam"], json.dumps(c["desc"]["layers"])))
         for n in names(TIE, tie) + names(PROP, prop):
             flagcount[c["fam"] + " " + n] = flagcount.get(c["fam"] + " " + n, 0) + 1
@@ -111,4 +113,4 @@ def run(ctx):
     )
     return ctx.finish("proof", cov, [
         "path coordinates on a quarter-millimetre grid, views from exact dyadic / Pythagorean matrices",
-        "SVG output is not judged by this check"])
+        "SVG: elements read back by a regular expression + ParseSVGPath (harness), judged by exec_svg/svg_spec; no tie flag for SVG"])
